@@ -263,8 +263,12 @@ func runAll(ld *Loaded, sf *SpecFile, opt *Options, only string) []*FuncResult {
 		fn  *ssa.Function
 		fs  *FuncSpec
 		lm  *LemmaDef
+		prelude bool
 	}
 	var jobs []job
+	if only == "prelude:sumlens" || (only == "" && (opt.prop == "" || opt.prop == "C10" || opt.prop == "C11")) {
+		jobs = append(jobs, job{key: "prelude:sumlens", prelude: true})
+	}
 	for _, k := range sortedKeys(sf.Funcs) {
 		fs := sf.Funcs[k]
 		if only != "" && k != only {
@@ -325,7 +329,9 @@ func runAll(ld *Loaded, sf *SpecFile, opt *Options, only string) []*FuncResult {
 			results[i] = fr
 			var e *Eng
 			genSem <- struct{}{}
-			if j.lm != nil {
+			if j.prelude {
+				e = verifyPreludeLemmas(ld, sf, opt.prop)
+			} else if j.lm != nil {
 				e = verifyLemma(ld, sf, j.lm, opt.prop, nil)
 			} else if j.fn == nil {
 				fr.Errs = append(fr.Errs, fmt.Sprintf("contract target %s not found in package (renamed or removed?)", j.key))
@@ -361,7 +367,7 @@ func runAll(ld *Loaded, sf *SpecFile, opt *Options, only string) []*FuncResult {
 						failed = append(failed, o.ID)
 					}
 				}
-				if len(failed) > 0 && opt.wantModel {
+				if len(failed) > 0 && opt.wantModel && !j.prelude {
 					getModels(ld, sf, j.fn, j.fs, j.lm, opt, smtDir, e.obls, failed)
 				}
 			}
@@ -919,7 +925,7 @@ var trustedBase = []string{
 	"sequential consistency; reads of lock-protected state outside the lock see some invariant-satisfying state; goroutine spawns, channel traffic and select are abstracted (listed per function)",
 	"user delegates honour their interface contracts in the contracts file (no re-entry, no mutation of memberlist state)",
 	"github.com/google/btree is modelled (engine/btree.go) as a finite set of items ordered by the pure btreeLess of the contracts file: ReplaceOrInsert/Delete by key equality, Min/Max extremal, Ascend*/Descend* call back once per item of the range unless stopped, nil receiver panics",
-	"prelude lemmas about the sum-of-lengths spec function sumlens (non-negativity, split, frame under store, extensionality, element bound) are inductive consequences of its defining axioms and are not machine-checked",
+	"prelude lemmas about the sum-of-lengths spec function sumlens (non-negativity, split, frame under store, extensionality, element bound): base case and inductive step of each are discharged by the solvers from instances of the three defining axioms (obligations prelude:sumlens/lemma/*); the induction principle of the naturals is applied outside the solver",
 }
 
 // mutationSelftest applies each change under <verif>/seeded/<prop>* to a scratch copy of the repository and runs the
